@@ -755,6 +755,7 @@ class Host(object):
         VT = mods["virtual_file"].VirtualFileType
         vtype = {"cas": VT.CASSETTE, "dsk": VT.DISK, "bin": VT.BINARY}[want]
         before = w.get(path)
+        snapshot = w.fs.snapshot()
         mark = w.log.mark()
         w.log.add("INVOKE", "vf_session", [path, want, len(files)])
 
@@ -794,9 +795,15 @@ class Host(object):
         r.status = 0 if err is None else 1
         r.crashed = False
 
+        gone = set(ev[2] for ev in r.events if ev[1] in ("CREATE", "WRITE", "TRUNCATE", "REMOVE", "RENAME")
+                   and ev[2] not in snapshot and ev[2] not in w.fs.files)        # the session's own scratch files
+
         def wrote(key=None, events=r.events):
-            return [ev for ev in events if ev[1] in ("TRUNCATE", "WRITE", "CREATE", "REMOVE") and (key is None or ev[2] == key)]
+            return [ev for ev in events
+                    if (ev[1] in ("TRUNCATE", "WRITE", "CREATE", "REMOVE") and ((key is None and ev[2] not in gone) or ev[2] == key))
+                    or (ev[1] == "RENAME" and ((key is None and ev[3] not in gone) or key in (ev[2], ev[3])))]
         r.wrote = wrote
+        self.check_wrote_elsewhere(r, snapshot, {self.w.resolve(path)}, k)
         res.stats["api:vf_session"] += 1
         if retried["n"]:
             res.stats["probe:refused_save_retried_with_append_on_same_object"] += 1
